@@ -6,11 +6,16 @@
      entry with an older one is the newer one);
    - repeating the same vacuum changes nothing;
    - the versions selected for deletion are exactly the ancestors all of whose successors were
-     created at or before the cutoff ("too new" = created strictly after the cutoff).
+     created at or before the cutoff ("too new" = created strictly after the cutoff);
+   - history deletion removes the node objects of the versions it reclaims BEFORE the records of
+     those versions, for every fault plan and crash point: when a version record is asked to be
+     deleted every node deletion of the run has been issued and has succeeded, and a node deletion
+     that fails ends the run with every version record still there — so a retry finds the same
+     versions again and nothing is left in the bucket that no record accounts for.
    Only [exact lemma] statements followed by Print Assumptions. *)
 From Coq Require Import ZArith List Bool.
 From S3db Require Import Base KeyOrder RowMerge Tree Store KvProto Inst Stmt.
-From S3db.proofs Require Import KeyOrderProofs TreeProofs RowMergeProofs VacuumProofs.
+From S3db.proofs Require Import KeyOrderProofs TreeProofs RowMergeProofs VacuumProofs DelOrderProofs.
 Import ListNotations.
 Open Scope Z_scope.
 
@@ -54,7 +59,49 @@ Proof. exact (candidates_spec g before p). Qed.
 Theorem C10_too_new_means_created_after_the_cutoff before (v : vobj) cr :
   v_created v = Some cr -> too_new before v = true <-> before < cr.
 Proof. exact (too_new_spec before v cr). Qed.
+
+(* traces are newest first *)
+Theorem C10_version_records_outlive_their_nodes {V} (c : cfg (V := V)) oeq plan crash fuel i muts b h before b' res tr' :
+  run oeq fuel plan crash i muts b (delete_historic c h before) [] = (b', res, tr') ->
+  forall later r ok earlier, tr' = later ++ (r, ok) :: earlier -> is_vdel r = true ->
+    ~ ndel_in later /\ ndels_ok earlier.
+Proof. exact (delete_historic_records_outlive_nodes c oeq plan crash fuel i muts b h before b' res tr'). Qed.
+
+Theorem C10_failed_node_deletion_keeps_every_version_record {V} (c : cfg (V := V)) oeq plan crash fuel i muts b h before b' res tr' n :
+  run oeq fuel plan crash i muts b (delete_historic c h before) [] = (b', res, tr') ->
+  In (RDel PNode n, false) tr' -> ~ vdel_in tr'.
+Proof. exact (failed_node_deletion_keeps_the_records c oeq plan crash fuel i muts b h before b' res tr' n). Qed.
 End C10.
+
+(* non-vacuity: a handle commits three times (two superseded versions), then deletes all history
+   while the first DELETE of a node object fails: the run fails, both version records are still
+   there; the retry completes and leaves exactly what an uninterrupted deletion leaves *)
+Definition c10_cfg := cfg_plain 0 4096.
+Definition c10_set (h : handle) w k v := match kv_set c10_cfg h w (VInt k) v with Some h' => h' | None => h end.
+Definition c10_setup : prog Z handle :=
+  bind (open c10_cfg false None 100 [] []) (fun h0 =>
+  bind (commit [] (c10_set h0 10 1 5)) (fun r1 =>
+  bind (commit [] (c10_set (fst r1) 20 1 6)) (fun r2 =>
+  bind (commit [] (c10_set (fst r2) 30 1 7)) (fun r3 => Ret (fst r3))))).
+Definition c10_plan : list fault :=
+  [{| f_kind := 3; f_pfx := PNode; f_name := None; f_occ := 0; f_out := OErr; f_sticky := false |}].
+Definition c10_fuel := Z.to_nat 100000.
+Example C10_interrupted_deletion_witness :
+  let '(b0, r0, _) := run_plain c10_fuel [] None empty_bucket c10_setup in
+  match r0 with
+  | Done h =>
+      let '(b1, r1, tr1) := run_plain c10_fuel c10_plan None b0 (delete_historic c10_cfg h 1000) in
+      let '(b2, r2, _) := run_plain c10_fuel [] None b1 (delete_historic c10_cfg h 1000) in
+      let '(b3, r3, _) := run_plain c10_fuel [] None b0 (delete_historic c10_cfg h 1000) in
+      length (o_names (b_merged b0)) = 2%nat /\
+      (exists e, r1 = Failed e) /\ (exists n, hd_error tr1 = Some (RDel PNode n, false)) /\
+      o_names (b_merged b1) = o_names (b_merged b0) /\ o_names (b_node b1) = o_names (b_node b0) /\
+      r2 = Done tt /\ r3 = Done tt /\
+      o_names (b_merged b2) = [] /\ o_names (b_node b2) = o_names (b_node b3) /\
+      length (o_names (b_node b2)) = 1%nat /\ o_names (b_cur b2) = o_names (b_cur b3)
+  | _ => False
+  end.
+Proof. vm_compute. repeat split; try (eexists; reflexivity). Qed.
 
 Print Assumptions C10_delete_marker_kept_iff_not_before_cutoff.
 Print Assumptions C10_live_rows_keep_their_entry.
@@ -63,3 +110,6 @@ Print Assumptions C10_same_vacuum_again_changes_nothing.
 Print Assumptions C10_newer_entry_wins_a_later_merge.
 Print Assumptions C10_candidates_are_the_fully_superseded_versions.
 Print Assumptions C10_too_new_means_created_after_the_cutoff.
+Print Assumptions C10_version_records_outlive_their_nodes.
+Print Assumptions C10_failed_node_deletion_keeps_every_version_record.
+Print Assumptions C10_interrupted_deletion_witness.
